@@ -1755,7 +1755,10 @@ def rule_suffix_needs_digit(col, facts):
             t = b["t"]
             if t["k"] == "switch" and f.live(i) and "fmt_invalid_digit" in f.macros(b["ts"]):
                 e = strip_casts(op_expr(f, t["d"]))
-                if e[0] == "bin" and e[1] in ("Gt", "Ge", "Lt", "Le", "Ne", "Eq") and strip_casts(e[2])[0] == "bin" and strip_casts(e[2])[1] == "Sub" and any(x[1].endswith("::cursor") for x in expr_calls(e)):
+                if e[0] == "bin" and e[1] in ("Gt", "Ge", "Lt", "Le", "Ne", "Eq") and strip_casts(e[2])[0] == "bin" and strip_casts(e[2])[1] == "Sub" and any(x[1].endswith("::cursor") for x in expr_calls(e)) \
+                        and strip_casts(e[3])[0] == "k" and strip_casts(strip_casts(e[2])[3])[0] != "k":
+                    # (`cursor - start_index OP <literal>`: the digit-count guard; `cursor - 1 == start_index`, the
+                    #  no-digit test of the partial parser, is a different comparison)
                     k = strip_casts(e[3])
                     n += 1
                     seen = True
